@@ -2,8 +2,10 @@ import Rooc.Wire
 import Rooc.Oracle
 import Rooc.Syntax.Format
 import Rooc.Syntax.FormatToks
+import Rooc.Syntax.ProgramToks
 import Rooc.Syntax.Wire
 import Rooc.Syntax.Parse
+import Rooc.Syntax.Program
 import Rooc.Syntax.Ref
 namespace Rooc.Drv.C11
 open Rooc Sexp Rooc.Syntax
@@ -25,7 +27,7 @@ def linkOk (e : PExp) : Bool :=
   !(coreExp e) ||
     (match lex (fmtExp e).toList with
      | .ok ts => ts == fmtToks e
-     | .unsupported => false)
+     | .unsupported => true)
 
 /-- model requests for C11: `(format <premodel>)` → the text `RoocParser::format` prints for that `PreModel`. -/
 def handle (α : Type) [Arith α] [Wire α] : List Sexp → Sexp
@@ -34,8 +36,22 @@ def handle (α : Type) [Arith α] [Wire α] : List Sexp → Sexp
     | some m =>
       match (exprSlots m).find? (fun e => !(linkOk e)) with
       | some e => app "err" [.atom "printer-token-link-broken", .str (fmtExp e)]
-      | none => app "ok" [.str m.text]
+      | none =>
+        -- program-level link: on the fragment, lexing the printed program gives `progToks`
+        if coreProgram m && (match lex m.text.toList with
+            | .ok ts => ts != progToks m
+            | .unsupported => false)      -- the lexer declines (e.g. a name starting with `_` right after a word)
+        then app "err" [.atom "program-token-link-broken"]
+        else app "ok" [.str m.text]
     | none => app "err" [.atom "decode"]
+  -- `(parse-program "<text>")` → the `PreModel` the program-level parser model reads (fragment without iterations)
+  | [.atom "parse-program", .str s] =>
+    match parseProgramText s.toList with
+    | .ok m => app "ok" [m.enc]
+    | .err .reject => app "err" [.atom "reject"]
+    | .err .panic => app "err" [.atom "panic"]
+    | .err .fuel => app "err" [.atom "fuel"]
+    | .unsupported => app "err" [.atom "unsupported"]
   | _ => app "err" [.atom "bad-request"]
 
 /-! ### oracle: the property itself on the implementation's output -/
